@@ -372,7 +372,10 @@ def check_doe_run(ctx: Ctx) -> None:
     ok = all(c.args and dotted(c.args[0]) == idx for c in cbs) and bool(cbs)
     ctx.ob("3.7-sequential", con, ok, "callbacks must receive the index of the sample just evaluated", node=(cbs or [lp])[0])
     # parallel branch
-    pex = [c for c in walk_body(f) if isinstance(c, ast.Call) and isinstance(c.func, ast.Attribute) and c.func.attr == "execute" and c.args and dotted(c.args[0]) == "self.samples"]
+    def _inputs_of(c):
+        return c.args[0] if c.args else kwarg(c, "inputs")
+
+    pex = [c for c in walk_body(f) if isinstance(c, ast.Call) and isinstance(c.func, ast.Attribute) and c.func.attr == "execute" and _inputs_of(c) is not None and dotted(_inputs_of(c)) == "self.samples"]
     ctx.need(len(pex) == 1, "BaseDOELibrary._run: parallel.execute(self.samples, ...) not found")
     pn = cfg.node_of(pex[0])
     seeds = [s for s in stmts_of(f) if isinstance(s, ast.For) and dotted(s.iter) == "self.samples" and any(isinstance(c, ast.Call) and last_attr(c) == "store" for c in ast.walk(s))]
@@ -422,8 +425,103 @@ def check_nan_policy(ctx: Ctx) -> None:
     ctx.ob("3.8-nan-policy", cname(DOE, "BaseDOELibrary", "_pre_run"), len(off) == 1 and const_value(off[0].value, True) is False, "a DOE must switch the NaN policy of its problem off: every generated sample is evaluated and recorded", node=(off or [pre])[0], stmt="problem.stop_if_nan = False")
 
 
+def check_counter_kept(ctx: Ctx) -> None:
+    """3.9: nothing a stop criterion runs puts the evaluation counter back to zero.
+
+    The testers are called from the new-iteration callback, i.e. in the middle of a run; `EvaluationProblem.reset`
+    zeroes the counter unless told `current_iter=False`.  Every function of algos/stop_criteria.py is followed through
+    the functions and constructors it calls (names resolved in algos/, three levels): a reachable `reset(...)` that
+    may zero the counter must be bracketed, in the stop-criteria function, by a save and a restore of
+    `evaluation_counter.current`.
+    """
+    ep = ctx.index.method("algos/evaluation_problem.py", "EvaluationProblem", "reset")
+    params = [a.arg for a in ep.args.args]
+    ctx.need("current_iter" in params, "EvaluationProblem.reset has no current_iter parameter")
+    defaults = dict(zip(params[len(params) - len(ep.args.defaults):], ep.args.defaults))
+    zeroes_by_default = const_value(defaults.get("current_iter"), None) is True
+    zero = [s_ for s_ in stmts_of(ep) if isinstance(s_, ast.Assign) and (dotted(s_.targets[0]) or "").endswith("evaluation_counter.current") and const_value(s_.value, None) == 0]
+    ctx.need(len(zero) == 1, "EvaluationProblem.reset: `self.evaluation_counter.current = 0` not found")
+
+    # callables defined under algos/: name -> function nodes (a class name stands for its __init__)
+    table: dict[str, list[ast.AST]] = {}
+    for rel, mod in ctx.index.modules.items():
+        if not rel.startswith("algos/"):
+            continue
+        for fname, fn in mod.functions.items():
+            table.setdefault(fname, []).append(fn)
+        for cn, ci in mod.classes.items():
+            if "__init__" in ci.methods:
+                table.setdefault(cn, []).append(ci.methods["__init__"])
+
+    def may_zero(call: ast.Call) -> bool:
+        if last_attr(call) != "reset" or not isinstance(call.func, ast.Attribute):
+            return False
+        recv = norm_stmt(call.func.value)
+        if "problem" not in recv:
+            return False
+        ci = kwarg(call, "current_iter")
+        if ci is None:
+            return zeroes_by_default
+        return const_value(ci, True) is not False
+
+    def bracketed(fn: ast.AST, call: ast.Call) -> bool:
+        cfg = cfg_of(fn)
+        cn_ = cfg.node_of(call)
+        saves = [s_ for s_ in stmts_of(fn) if isinstance(s_, ast.Assign) and isinstance(s_.targets[0], ast.Name) and (dotted(s_.value) or "").endswith("evaluation_counter.current")]
+        restores = [s_ for s_ in stmts_of(fn) if isinstance(s_, ast.Assign) and (dotted(s_.targets[0]) or "").endswith("evaluation_counter.current") and isinstance(s_.value, ast.Name) and s_.value.id in {x.targets[0].id for x in saves}]
+        return bool(saves) and bool(restores) and any(cfg.dominates(cfg.node_of(sv_), cn_) for sv_ in saves) and cfg.escape_path(cn_, {cfg.node_of(r_) for r_ in restores}) is None
+
+    def unprotected(fn: ast.AST, depth: int, seen: set) -> list[tuple[ast.Call, str]]:
+        """(call in fn, chain) for the calls of fn through which the counter can be zeroed without being restored."""
+        out = []
+        for c in walk_body(fn):
+            if not isinstance(c, ast.Call):
+                continue
+            chain = None
+            if may_zero(c):
+                chain = norm_stmt(c, 60)
+            else:
+                name = dotted(c.func) if isinstance(c.func, ast.Name) else None
+                if name and name in table and depth > 0 and name not in seen:
+                    for g in table[name]:
+                        sub = unprotected(g, depth - 1, seen | {name})
+                        if sub:
+                            chain = f"{name} -> {sub[0][1]}"
+                            break
+            if chain is not None and not bracketed(fn, c):
+                out.append((c, chain))
+        return out
+
+    sc = ctx.index.module(SC)
+    n = 0
+    fns = list(sc.functions.items()) + [(f"{cn}.{mn}", m) for cn, ci in sc.classes.items() for mn, m in ci.methods.items()]
+    for fname, fn in sorted(fns, key=lambda kv: kv[0]):
+        calls_out = [c for c in walk_body(fn) if isinstance(c, ast.Call) and isinstance(c.func, ast.Name) and c.func.id in table]
+        bad = {id(c): ch for c, ch in unprotected(fn, 3, set())}
+        for c in calls_out:
+            reach_any = any(True for g in table[c.func.id] for _ in [0] if _reaches_reset(g, table, may_zero, 2, {c.func.id}))
+            if not reach_any:
+                continue
+            n += 1
+            ctx.ob("3.9-counter-kept", cname(SC, None, fname), id(c) not in bad, f"`{c.func.id}(...)` reaches `{bad.get(id(c), '')}`, which puts the evaluation counter back to 0 in the middle of a run (the criterion is tested at every new iteration): the budget max_iter is then never reached; the counter must be saved before and restored after", node=c, stmt=f"{c.func.id}(...) keeps the evaluation counter")
+    ctx.counts["3.9-sites"] = n
+    ctx.floor("3.9-counter-kept", 1)
+
+
+def _reaches_reset(fn, table, may_zero, depth, seen) -> bool:
+    for c in walk_body(fn):
+        if isinstance(c, ast.Call):
+            if may_zero(c):
+                return True
+            name = dotted(c.func) if isinstance(c.func, ast.Name) else None
+            if name and name in table and depth > 0 and name not in seen and any(_reaches_reset(g, table, may_zero, depth - 1, seen | {name}) for g in table[name]):
+                return True
+    return False
+
+
 def run(ctx: Ctx) -> None:
     check_budget_guard(ctx)
+    check_counter_kept(ctx)
     check_nan_policy(ctx)
     check_counter(ctx)
     store_protocol(ctx, "3.3", {"emptiness"})
